@@ -325,8 +325,90 @@ def run_history(kind, hist, tmp, cmd="num-running", early=None):
     return viol, states
 
 
+def run_halfclose(kind, tmp, variant):
+    """A client that sends its commands, half-closes (EOF) and reads until the server closes: the reply to a last command that
+    was still waiting (gather-and-close while a task runs) must still arrive once the wait is over."""
+    loop = SLoop()
+    events._set_running_loop(loop)
+    vw.ACTIVE = vw.Recorder(loop)
+    viol = []
+    path = os.path.join(tmp, f"h{os.getpid()}.sock")
+    task = None
+    w = None
+    try:
+        pool = SimpleTaskPool(vw.work, pool_size=3)
+        srv = UnixControlServer(pool, socket_path=path) if kind == "unix" else TCPControlServer(pool, host="127.0.0.1", port=0)
+        task = loop.run_coro(srv.serve_forever())
+        pool.start(1)
+        loop.quiesce()
+        if kind == "unix":
+            r, w = loop.run_coro(asyncio.open_unix_connection(path))
+        else:
+            r, w = loop.run_coro(asyncio.open_connection("127.0.0.1", srv._server.sockets[0].getsockname()[1]))
+        w.write(json.dumps({"terminal_width": 80}).encode() + b"\n")
+        loop.quiesce()
+        r._buffer.clear()
+        lines = [b"num-running", b"gather-and-close"] if variant == "pipelined" else [b"gather-and-close"]
+        want = b"1\nok\n" if variant == "pipelined" else b"ok\n"
+        for ln in lines:
+            w.write(ln + b"\n")
+        loop.quiesce()
+        w.write_eof()  # the client has said everything; it keeps reading
+        loop.quiesce()
+        for g in vw.ACTIVE.gates:  # the pool's task ends: the close can complete
+            if not g.done():
+                g.set_result(None)
+        loop.quiesce()
+        got = bytes(r._buffer)
+        if got != want:
+            viol.append(("a client that half-closed after its last command did not get that command's reply", variant, got))
+        elif not r._eof:  # (at_eof() is only true once the buffered reply has been consumed)
+            viol.append(("server did not close the connection after answering a half-closed client", variant))
+        if loop.blocked:
+            viol.append(("one session blocked the event loop", variant))
+    except AssertionError as e:
+        viol.append(("harness", str(e)))
+    except Exception as e:  # noqa: BLE001
+        viol.append(("unexpected exception", type(e).__name__, str(e)))
+    finally:
+        try:
+            if w is not None:
+                w.close()
+            if task is not None and not task.done():
+                task.cancel()
+            for t in asyncio.all_tasks(loop):
+                t.cancel()
+            loop.quiesce()
+        except BaseException:  # noqa: BLE001
+            pass
+        events._set_running_loop(None)
+        try:
+            loop.close()
+        except Exception:  # noqa: BLE001
+            pass
+        if os.path.exists(path):
+            os.unlink(path)
+    return viol
+
+
 def _work(args):
     global SCALE
+    if args[0] == "halfclose":
+        tmp = tempfile.mkdtemp(prefix="ctlsock")
+        out = []
+        try:
+            for variant in ("single", "pipelined"):
+                SCALE = 1.0
+                v = run_halfclose(args[1], tmp, variant)
+                if v and not all(x[0] == "harness" for x in v):
+                    SCALE = 10.0
+                    v = run_halfclose(args[1], tmp, variant)
+                    SCALE = 1.0
+                for x in v:
+                    out.append({"key": "HARNESS" if x[0] == "harness" else str(x[0]), "transport": args[1], "halfclose": variant, "detail": repr(x)})
+        finally:
+            shutil.rmtree(tmp, ignore_errors=True)
+        return 2, 10, out, set()
     if len(args) == 4:
         return _work_early(args)
     kind, hists, cmd = args
@@ -529,6 +611,7 @@ def run(tier, seed):
         work += [(kind, hw[i::jobs], "stop -h") for i in range(jobs)]
         # ... and parked in gather-and-close (the pool's one task keeps running): a client leaving must not touch the task
         work += [(kind, hw[i::jobs], "gac|num-running") for i in range(jobs)]
+        work.append(("halfclose", kind))
         if tier != "quick":
             hs2 = list(histories(1)) + list(histories(2, max_cmds=1))
             work += [(kind, hs2[i::jobs], "start 1") for i in range(jobs)]
@@ -570,6 +653,15 @@ def run(tier, seed):
 
 def replay(v):
     global SCALE
+    if v.get("halfclose"):
+        tmp = tempfile.mkdtemp(prefix="ctlsock")
+        try:
+            SCALE = 10.0
+            viol = run_halfclose(v["transport"], tmp, v["halfclose"])
+        finally:
+            SCALE = 1.0
+            shutil.rmtree(tmp, ignore_errors=True)
+        return {"viol": repr(viol)} if viol else None
     if v.get("cli") or "history" not in v:
         return None
     if v.get("early_stop") is not None:
